@@ -1213,6 +1213,8 @@ func editUnionSecondDefault(e *env) bool {
 	d := pick(e, "union", cands)
 	mk := func() *idl.Field {
 		f := &idl.Field{ID: freshID(d.Fields), Explicit: true, Name: e.fresh("fdef")}
+		// the requiredness keyword of a union member is legal (ignored with a warning): the rule must hold for all three
+		f.Req = pick(e, "default_req", []idl.Req{idl.ReqDefault, idl.ReqDefault, idl.ReqOptional, idl.ReqRequired})
 		switch pick(e, "default_type", []string{"i32", "string", "bool"}) {
 		case "i32":
 			f.Type, f.Default = &idl.Type{Base: "i32"}, &idl.Value{Kind: idl.VInt, Int: 1}
